@@ -102,7 +102,10 @@ def runOp (args impl : List String) : Option (String × String) := do
       else if ¬setupFailed ∧ maxit = 0 ∧ n "ret" < stopMs - 2 then "FAIL run-returned-before-the-earliest-stop-condition"
       else if ¬setupFailed ∧ plain ∧ maxBody ≤ 250 ∧ n "ret" > stopMs + maxBody + an "cleanup" "0" + 1000 then "FAIL run-did-not-return-once-triggering-stopped-and-iterations-finished"
       else if plain ∧ n "inflight" > 0 ∧ n "ret" < stopMs + an "timeout" "3000" - 60 ∧ maxit = 0 then "FAIL gave-up-on-iterations-before-the-completion-timeout"
-      else if an "retmin" "0" > 0 ∧ n "ret" < an "retmin" "0" then "FAIL run-returned-before-waiting-for-in-flight-iterations"
+      -- `retmin` is where the case expects the return when no tick is lost; a stalled process loses ticks, so the bound that
+      -- is enforced is the earlier of it and the end of the body of the iteration that really started last
+      else if an "retmin" "0" > 0 ∧ n "ret" < an "retmin" "0" ∧ n "ret" < n "laststart" + maxBody - 2 then
+        "FAIL run-returned-before-waiting-for-in-flight-iterations"
       else "ok"
     else if prop = "C06" then
       if n "setups" ≠ 1 then "FAIL setup-not-exactly-once"
